@@ -6,7 +6,9 @@ CFG = {'assumptions': ['f64 inputs cross the boundary as bit patterns and are de
                  'polygon rings are closed (Polygon::new closes them; C18)'],
  'count': {'quick': 200000, 'thorough': 8000000},
  'lean_files': ['GeoModel/Area.lean', 'GeoModel/Winding.lean', 'GeoModel/SimpleRing.lean', 'GeoModel/Orient.lean',
-                'GeoModel/Ops/C05.lean', 'GeoProofs/Lemmas/C05Area.lean', 'GeoProofs/Lemmas/C05Winding.lean'],
+                'GeoModel/Ops/C05.lean', 'GeoProofs/Lemmas/C05Area.lean', 'GeoProofs/Lemmas/C05Winding.lean',
+                'GeoProofs/Lemmas/C05PConvex.lean', 'GeoProofs/Lemmas/C05PRotate.lean',
+                'GeoProofs/Lemmas/C05PFloat.lean'],
  'rule': 'star-shaped (oblique, non-convex), two-sided histogram (rectilinear, collinear vertices) and junk '
          'rings on 3..8 grids under the 6 grid similarities, random start vertex (least vertex forced last in '
          '1/4), either direction, repeated vertices, doubly closed or open; polygons with 0-3 holes of '
@@ -23,8 +25,11 @@ CFG = {'assumptions': ['f64 inputs cross the boundary as bit patterns and are de
                   'the decision "simple ring" (domain of the winding clause) is the Lean definition '
                   'GeoModel/SimpleRing.lean; that the lexicographically least vertex of a simple ring is '
                   'strictly convex (so the pivot orientation equals the sign of the area) is a spec-adequacy '
-                  'assumption tied by correspondence, proved only for triangles',
-                  'the rounding tolerance of regime R is a stated bound, not a theorem',
+                  'assumption tied by correspondence, proved for convex rings (triangles, Rect polygon forms, '
+                  'quadrilaterals with equal turn signs, any ring lying on one side of each of its edges) only',
+                  'the rounding tolerance of regime R is a stated bound, not a theorem (the proved bound '
+                  'area_rounding_error is the worst-case gamma_(n+3) * sum of product magnitudes under the standard '
+                  'model without underflow; it is quadratic in n where the tolerance is linear)',
                   'regime R: a polygon with holes whose exact exterior area is below the tolerance is a '
                   'near-tie of the sign branch in Polygon::signed_area and is SKIPped (counted, ~0.4%)']}
 
@@ -48,9 +53,17 @@ MANIFEST = {'note': 'Trusted: Lean 4.33 kernel (axioms propext, Classical.choice
          'members, and the whole geometry tree equals the unshifted-shoelace specification (area_eq_spec); '
          'orient returns each ring or its reverse, closed, unsigned area unchanged; winding_order is '
          'characterised by the exact determinant at the lexicographically least vertex, None only for '
-         'short/open/all-equal/collinear-pivot rings, equals the sign of the area for triangles; under the '
-         'hypothesis that the least point is not visited twice (_partial): reversal flips the winding, '
-         'orient yields the requested windings and is idempotent. The real code is run on the same inputs: areas '
+         'short/open/all-equal/collinear-pivot rings; for every convex ring (all coordinates on one closed side '
+         'of every edge line; repeated and collinear vertices, open, short and flat rings admitted; includes all '
+         'triangles, Rect polygon forms and quadrilaterals whose turns have one sign) winding_order is the sign '
+         'of the area (ccw iff > 0, cw iff < 0, None iff = 0; fan decomposition from a vertex), reversal flips '
+         'it, orient yields the requested windings and is idempotent; a pentagram shows that equal turn signs '
+         'alone do not give the fan property; under the hypothesis that the least point is not visited twice '
+         '(_partial): reversal flips the winding, the start vertex is irrelevant (any rotation; a pinched ring '
+         'shows the hypothesis is needed), orient yields the requested windings and is idempotent. Rounding: '
+         'under the standard model fl(x) = x(1+d), |d| <= u, for an arbitrary rounding function applied after '
+         'every operation of twice_signed_ring_area, |computed - exact| <= ((1+u)^(n+3) - 1) * sum over edges '
+         'of (|dx_i dy_i+1| + |dy_i dx_i+1|) of the shifted coordinates, and (1+u)^k - 1 <= ku/(1-ku). The real code is run on the same inputs: areas '
          'bit-exact on integer grids (offsets to 2^27 and 1e8), within the stated rounding bound otherwise; '
          "winding and orient exact; the shoelace/sign/ring-set clauses are evaluated on the implementation's "
          'own outputs.'}
